@@ -25,7 +25,7 @@ func init() {
 		Assumptions: []string{"a failed Protect leaves the previous protection in place", "buffers that only ever held discarded random fill (createRandom failure paths) need no wipe: nobody was given that key"},
 		Tech:        "static analysis: must-release ownership of mapped/locked pages on SSA over all error exits, error-discipline, dominance ordering; both SecretFactory back ends",
 		NeedU1:      true,
-		Rules:       []func(*Ctx){ruleC12ErrorsSurface, ruleC12FailedCreationCleans, ruleC12WipeBeforeRelease, ruleC12FailedAccessNeutral, ruleC12CloseRetryableBalanced, nilContradictionRule("C12", false, "github.com/godaddy/asherah/go/securememory"), ruleC11CloseWaitsAndOrders, ruleSecretFlagsMonotonic, lockBalancedRule("C11", 10, lockDomSpec{pkgProt, "secretInternal", "rw"}, lockDomSpec{pkgMemg, "secret", "rw"})},
+		Rules:       []func(*Ctx){ruleC12ErrorsSurface, ruleC12FailedCreationCleans, ruleC12WipeBeforeRelease, ruleC12FailedAccessNeutral, ruleC12CloseRetryableBalanced, ruleC12FailedCreationDisarms, nilContradictionRule("C12", false, "github.com/godaddy/asherah/go/securememory"), ruleC11CloseWaitsAndOrders, ruleSecretFlagsMonotonic, lockBalancedRule("C11", 10, lockDomSpec{pkgProt, "secretInternal", "rw"}, lockDomSpec{pkgMemg, "secret", "rw"})},
 	})
 }
 
@@ -206,7 +206,15 @@ func ruleC12FailedCreationCleans(c *Ctx) {
 				for _, s := range b.Succs {
 					for _, fct := range edgeFacts(b, s) {
 						if x, isNil, ok := nilTest(fct); ok && !isNil && e != nil && strip(x) == e {
-							ok2, _ := mustPass(s, 0, func(j ssa.Instruction) bool { return staticIs(j, pkgMemcall+".Clean") || mcOp(j) == "Free" }, nil)
+							// the region cleaned is the region that was being protected (same accessor on the same buffer: the
+							// page-aligned Inner() region, not the unaligned Bytes() view whose munmap/mprotect fail)
+							region := regionKey(callOf(i).Args[0])
+							ok2, _ := mustPass(s, 0, func(j ssa.Instruction) bool {
+								if staticIs(j, pkgMemcall+".Clean") {
+									return regionKey(callOf(j).Args[1]) == region
+								}
+								return mcOp(j) == "Free" && regionKey(callOf(j).Args[0]) == region
+							}, nil)
 							if !ok2 {
 								bad = true
 							}
@@ -214,7 +222,7 @@ func ruleC12FailedCreationCleans(c *Ctx) {
 					}
 				}
 			}
-			c.check(!bad, "memguard.SecretFactory.newFromBuffer/Protect-failed", u.ipos(i), "failed Protect → Clean(buffer) before returning the error", "a failed Protect returns an error while the locked buffer stays mapped")
+			c.check(!bad, "memguard.SecretFactory.newFromBuffer/Protect-failed", u.ipos(i), "failed Protect → Clean(<the same region>) before returning the error", "a failed Protect returns an error while the locked buffer stays mapped (no Clean/Free of the region that was being protected on that path — e.g. the unaligned Bytes() view is passed instead of Inner(): munmap fails and the secret stays mapped and un-wiped)")
 		})
 	}
 }
@@ -484,4 +492,104 @@ func ruleC12CloseRetryableBalanced(c *Ctx) {
 		}
 		c.check(bad == "" && len(incs) > 0, name+"/in-use-accounting", u.pos(f.Pos()), "InUseCounter.Inc exactly once on success, never on failure", "in-use accounting is unbalanced: "+bad)
 	}
+}
+
+// ruleC12FailedCreationDisarms: newSecret arms a finalizer that runs the full teardown (Protect, wipe, Unlock, Free,
+// InUseCounter.Dec) on the secret's pages. When a creation fails after newSecret succeeded, the pages are released by the
+// cleanup — the abandoned object must then be marked closed (or its finalizer cleared), otherwise the garbage collector
+// later tears the same address range down again (it may belong to another secret by then) and decrements the in-use
+// counter for a secret that was never counted.
+func ruleC12FailedCreationDisarms(c *Ctx) {
+	u := c.U1
+	c.rule("C12.failed-creation-disarms", "protectedmemory: every error return of a creation function that follows a successful newSecret passes a step that marks the abandoned secret closed (a method that sets closed = true on every path, or a direct store) or clears its finalizer", 3)
+	marksClosed := func(g *ssa.Function) bool {
+		if g == nil || g.Blocks == nil {
+			return false
+		}
+		ok, _ := mustPass(g.Blocks[0], 0, func(j ssa.Instruction) bool {
+			st, isS := j.(*ssa.Store)
+			if !isS {
+				return false
+			}
+			fa, isF := st.Addr.(*ssa.FieldAddr)
+			if !isF || fieldName(fa.X.Type(), fa.Field) != "closed" {
+				return false
+			}
+			k, isC := constOf(st.Val)
+			return isC && k.ExactString() == "true"
+		}, nil)
+		return ok
+	}
+	n := 0
+	for _, f := range u.RepoFuncs {
+		if f.Pkg == nil || f.Pkg.Pkg.Path() != pkgProt || f.Blocks == nil || f.Parent() != nil {
+			continue
+		}
+		allInstrs(f, func(i ssa.Instruction) {
+			cv, ok := i.(*ssa.Call)
+			if !ok {
+				return
+			}
+			if g := staticCallee(cv); g == nil || g.Name() != "newSecret" {
+				return
+			}
+			var errv ssa.Value
+			for _, pr := range resultsOfType(cv, isErrorType) {
+				errv = pr[0]
+			}
+			c.FuncsAnalysed[shortName(f)] = true
+			for _, r := range returnsOf(f) {
+				if len(r.Results) == 0 || isNilValue(returnedValue(r, len(r.Results)-1)) {
+					continue
+				}
+				// only error returns taken after newSecret succeeded
+				if errv == nil || !knownNil(errv, r.Block()) {
+					continue
+				}
+				n++
+				found, tr := pathSearch(cv, func(j ssa.Instruction) pathAction {
+					if j == ssa.Instruction(r) {
+						return pathFound
+					}
+					if call, isCall := j.(*ssa.Call); isCall {
+						if h := staticCallee(call); h != nil {
+							if marksClosed(h) {
+								return pathStop
+							}
+							if funcFullName(h) == "runtime.SetFinalizer" && isNilValue(call.Call.Args[1]) {
+								return pathStop
+							}
+						}
+					}
+					if st, isS := j.(*ssa.Store); isS {
+						if fa, isF := st.Addr.(*ssa.FieldAddr); isF && fieldName(fa.X.Type(), fa.Field) == "closed" {
+							if k, isC := constOf(st.Val); isC && k.ExactString() == "true" {
+								return pathStop
+							}
+						}
+					}
+					return pathContinue
+				}, nil)
+				construct := trimPkgDirs(shortName(f)) + "/error-return-after-newSecret"
+				if found {
+					c.bad(construct, u.ipos(r), "a failed creation releases the pages but leaves the abandoned secret open with its finalizer armed: the garbage collector later runs Close on it — Protect/wipe/Unlock/Free on pages that are no longer its own (possibly another secret's by then) and InUseCounter.Dec for a secret that was never counted", u.tracePositions(tr)...)
+				} else {
+					c.ok(construct, u.ipos(r), "abandoned secret marked closed / finalizer cleared before the error return")
+				}
+			}
+		})
+	}
+	if n < 3 {
+		c.bad("protectedmemory/creation-error-returns", "", fmt.Sprintf("expected at least 3 error returns after a successful newSecret (New, createRandom ×2), found %d", n))
+	}
+}
+
+// regionKey names a memory region argument: "<method>(<buffer path>)" for accessor calls such as lb.Inner(), else the access path.
+func regionKey(v ssa.Value) string {
+	if cv, ok := resolve(v).(*ssa.Call); ok {
+		if g := staticCallee(cv); g != nil && len(cv.Call.Args) > 0 {
+			return g.Name() + "(" + trimAddr(accessPath(cv.Call.Args[0])) + ")"
+		}
+	}
+	return trimAddr(accessPath(v))
 }
